@@ -296,6 +296,10 @@ func genC01(c *ctx) {
 	p.Odd = c.chance(0.6)
 	p.HalfTyped = []float64{0, 0.03, 0.1}[c.n(3)]
 	p.Builtins = c.chance(0.4)
+	if c.chance(0.15) {
+		// a workspace with HCL JSON files among the others
+		p.JSONTwin, p.JSONFiles, p.HalfTyped, p.Odd, p.Layout = true, true, 0, false, false
+	}
 	c.makeWorld(p)
 	stride := 3
 	if c.thorough() {
